@@ -362,6 +362,13 @@ def knownCarriers : List Text := [
 
 def carrierKnown (f : Text × Text) : Bool := knownCarriers.contains f.1
 
+/-- An `append` on a struct field / package-level slice is harmless for request isolation only when its result
+    replaces that same field (`F = append(F, …)`: registration). Anything else — `x := append(h.middlewares, perRequest)`
+    — writes the per-request element into `F`'s backing array whenever `F` has spare capacity: a server-level slot
+    shared by every concurrent request (the chain of one request then contains the layer, and the session it closes
+    over, of another). -/
+def appendOk (a : Text × Text × Text) : Bool := a.2.2 == t!"assign-back"
+
 /-- What `Gen.cfSessionLookups` must read: every step from "the id the request carries" to "the session object in
     its context" is a single keyed read of the session registry (under the manager's lock / one `sync.Map` Load),
     keyed by the request's OWN id, and nothing remembers a lookup outside the registry. -/
@@ -383,7 +390,7 @@ def listFactFresh (a : Text × Text × Text) : Bool := a.2.2 == t!"fresh"
 /-- The facts of today's source. -/
 def codeFacts : Facts :=
   { foldAscending := Mcp.Gen.cfPostFoldAscending
-    sharedSlot := !(Mcp.Gen.cfStores.all storeAllowed && Mcp.Gen.cfCtxArgs.all argOk)
+    sharedSlot := !(Mcp.Gen.cfStores.all storeAllowed && Mcp.Gen.cfCtxArgs.all argOk && Mcp.Gen.cfFieldAppends.all appendOk)
     listCache := !(Mcp.Gen.cfListFieldWrites.isEmpty && Mcp.Gen.cfListPoolUses.isEmpty &&
       Mcp.Gen.cfListSnapshots.all listFactFresh && Mcp.Gen.cfListResults.all listFactFresh)
     lookupCache := !(Mcp.Gen.cfSessionLookups == expectedLookups) }
